@@ -53,14 +53,24 @@ def cmd_pin(_args):
 	return 0
 
 
+# checks whose implementation side must run under the baseline interpreter (/venv/bin/python, 3.12): the generated codecs depend on
+# enum.Flag's strict boundary, which Debian's 3.11.2 does not implement (Flag(invalid bits) silently drops them there)
+BASELINE_INTERPRETER = '/venv/bin/python'
+BASELINE_CHECKS = {'C01', 'C02', 'C12'}
+
+
 def cmd_check(args):
 	tier = args.tier or os.environ.get('VERIF_TIER') or 'quick'
+	if args.id in BASELINE_CHECKS and os.path.realpath(sys.executable) != os.path.realpath(BASELINE_INTERPRETER) \
+		and os.path.exists(BASELINE_INTERPRETER) and not os.environ.get('VERIF_NO_REEXEC'):
+		os.execv(BASELINE_INTERPRETER, [BASELINE_INTERPRETER, os.path.abspath(__file__), 'check', args.id, '--tier', tier])
 	seed = int(os.environ.get('VERIF_SEED', '20240930'))
 	common.setup_impl_path()
 	common.prepare_work()
 	module = importlib.import_module(f'harness.checks.{args.id.lower()}')
 	check = common.Check(args.id, tier, seed)
 	check.trusted += common.COMMON_TRUSTED
+	check.extra['interpreter'] = sys.version.split()[0] + ' ' + sys.executable
 	try:
 		unrecognised, shapes = gen.regenerate()
 		check.shape_report = shapes.report
